@@ -451,6 +451,15 @@ def quick_family():
         entries.append((shipped_spec(n), "shipped"))
     entries.append(({"name": "tiny-gen", "gen": ["tiny-gen", 0]}, "generated"))
     entries.append(({"name": "tiny-gen-rgoal", "gen": ["tiny-gen-rgoal", 1]}, "generated"))
+    # SCALE: scenarios far beyond the complete-graph bound (16-23 hosts) are explored around a reference path: every
+    # state on the reference model's closure plan is expanded with EVERY action and both draws (all one-step
+    # deviations from the plan are executed and checked, not expanded further). Reported as capped.
+    sp = shipped_spec("medium")
+    sp["_path_only"] = True
+    entries.append((sp, "shipped"))
+    entries.append(({"name": "medium-gen-s0", "gen": ["medium-gen", 0], "_path_only": True}, "generated"))
+    entries.append(({"name": "large-gen-s1", "gen": ["large-gen", 1], "_path_only": True}, "generated"))
+    entries.append((shipped_spec("small-linear"), "shipped"))
     # scenarios straight out of the generator (firewall rules as sets, NumPy topology, np.str_ names)
     for seed in (0, 1):
         entries.append(({"name": f"gen5-s{seed}", "genparams": {
@@ -474,8 +483,15 @@ def thorough_family():
             entries += _entries_for(sp, both=(i % 4 == 0))
     for sp in fw_exhaustive_specs():
         entries += _entries_for(sp)
-    for n in ["small-honeypot", "small-linear"]:
+    for n in ["small-honeypot"]:
         entries.append((shipped_spec(n), "shipped"))
+    for n in ["medium-single-site", "medium-multi-site"]:
+        sp = shipped_spec(n)
+        sp["_path_only"] = True
+        sp["name"] = n
+        entries.append((dict(sp, name=n), "shipped"))
+    for g, seed in (("huge-gen", 0), ("pocp-1-gen", 0), ("medium-gen", 3), ("large-gen", 4)):
+        entries.append(({"name": f"{g}-path-s{seed}", "gen": [g, seed], "_path_only": True}, "generated"))
     # 16-host shipped scenarios: breadth-first exploration capped at 1200 states (reported as capped, never
     # called exhaustive): all action histories up to the depth the cap allows, every action, both draw sides
     for n in ["medium", "medium-single-site", "medium-multi-site"]:
